@@ -49,10 +49,20 @@ C14(s, v) ==
   ELSE IF ~v.grammar_ok THEN "C14.grammar"
   ELSE IF "copy_same_export" \in DOMAIN v /\ ~v.copy_same_export THEN "C14.copy"
   ELSE "ok"
+\* ---- C07 clauses: the public counterpart derived NOW (and its export) against the private key it was derived from
+C07(s, v, o) ==
+  IF v.view = "private key" \/ v.view = "export -> import of the private key" THEN "ok"
+  ELSE IF SetOf(v.tags) \ {6, 14, 13, 17, 2} # {} THEN "C07.tags"
+  ELSE IF v.fingerprint # o.priv.fingerprint \/ v.sub_fprs # o.priv.sub_fprs THEN "C07.same-public-view"
+  ELSE IF SetOf(v.uids) # SetOf(o.priv.uids) \/ SetOf(v.uids) # Present(s) \/ SetOf(v.subs) # SetOf(s.subs) THEN "C07.same-public-view"
+  ELSE IF \E u \in Present(s) : SetOf(v.sigs_on[u]) # Expected(s, v, u) THEN "C07.same-public-view"
+  ELSE IF \E x \in SetOf(s.subs) : SetOf(v.sigs_on[x]) # Expected(s, v, x) THEN "C07.same-public-view"
+  ELSE IF SetOf(v.sigs_on.key) # Expected(s, v, "key") THEN "C07.same-public-view"
+  ELSE "ok"
 Views(o) == <<o.priv, o.pub, o.imp, o.pubimp>>
 FirstBad(s, o) ==
   LET vs == Views(o)
-      cl(v) == IF Focus = "C15" THEN C15(s, v) ELSE C14(s, v)
+      cl(v) == IF Focus = "C15" THEN C15(s, v) ELSE IF Focus = "C07" THEN C07(s, v, o) ELSE C14(s, v)
       bad == {k \in 1..Len(vs) : cl(vs[k]) # "ok"} IN
   IF bad = {} THEN <<"ok", "-">> ELSE LET k == CHOOSE x \in bad : \A y \in bad : x <= y IN <<cl(vs[k]), vs[k].view>>
 NextTrace == tid' = tid + 1 /\ i' = 1 /\ st' = Empty
